@@ -77,22 +77,29 @@ def run_battery(s: Server, root: str, files, *, fixed=None, requests=("definitio
     JSON-able dict keyed by query."""
     norm = Normaliser(root)
     out = {}
+
+    # Queries first, in the state the history left behind; the didSave notifications that fetch the diagnostics come
+    # last (a save re-reads and re-links files: sent first it would repair stale state before anything is asked).
+    def diagnostics_phase():
+        for rel in sorted(files):
+          path = os.path.join(root, rel)
+          if save_for_diagnostics:
+              msgs = s.save(path)
+              diags = []
+              for o in msgs:
+                  if o.get("method") == "textDocument/publishDiagnostics":
+                      for d in o["params"]["diagnostics"]:
+                          diags.append(norm({"range": d["range"], "severity": d.get("severity"), "message": d["message"],
+                                             "related": [(r["location"]["uri"], r["location"]["range"]["start"]["line"], r["message"])
+                                                         for r in d.get("relatedInformation", [])]}))
+                  elif o.get("method") == "window/showMessage":
+                      diags.append(norm({"showMessage": o["params"]["message"]}))
+                  elif "id" in o:
+                      diags.append({"unexpected_response": norm(o)})
+              out[f"diag:{rel}"] = sorted(diags, key=_key)
+
     for rel in sorted(files):
         path = os.path.join(root, rel)
-        if save_for_diagnostics:
-            msgs = s.save(path)
-            diags = []
-            for o in msgs:
-                if o.get("method") == "textDocument/publishDiagnostics":
-                    for d in o["params"]["diagnostics"]:
-                        diags.append(norm({"range": d["range"], "severity": d.get("severity"), "message": d["message"],
-                                           "related": [(r["location"]["uri"], r["location"]["range"]["start"]["line"], r["message"])
-                                                       for r in d.get("relatedInformation", [])]}))
-                elif o.get("method") == "window/showMessage":
-                    diags.append(norm({"showMessage": o["params"]["message"]}))
-                elif "id" in o:
-                    diags.append({"unexpected_response": norm(o)})
-            out[f"diag:{rel}"] = sorted(diags, key=_key)
         sym = s.result("textDocument/documentSymbol", {"textDocument": Server.tdpp(path, 0, 0)["textDocument"]})
         out[f"symbols:{rel}"] = norm(sym)
     ws = s.result("workspace/symbol", {"query": ""})
@@ -121,6 +128,7 @@ def run_battery(s: Server, root: str, files, *, fixed=None, requests=("definitio
                 out["comp:" + k] = norm(r)
             if "signatureHelp" in requests and lines[ln][b:b + 1] == "(":
                 out["sig:" + k] = norm(s.result("textDocument/signatureHelp", Server.tdpp(path, ln, b + 1)))
+    diagnostics_phase()
     return out
 
 
